@@ -552,6 +552,21 @@ func delPeer(t *Torrent, p *peer.Peer) bool {
 		}}
 		writePeers(t, peer.PeerPex{pp, false}, nil)
 	}
+	// requests that the peer never got round to reading are no
+	// longer in flight
+	for {
+		select {
+		case e := <-p.Event:
+			if r, ok := e.(peer.PeerRequest); ok {
+				for _, c := range r.Chunks {
+					noteInFlight(t, c, false)
+				}
+			}
+			continue
+		default:
+		}
+		break
+	}
 	return i >= 0
 }
 
